@@ -70,6 +70,8 @@ def prod(
         polynomial([[[q0**3],
                      [q1**3+q0*q1**2]]])
         >>> numpoly.prod(poly, axis=[1, 2])
+        polynomial([q0**3*q1**3+q0**4*q1**2])
+        >>> numpoly.prod(poly, axis=[1, 2], keepdims=True)
         polynomial([[[q0**3*q1**3+q0**4*q1**2]]])
 
     """
@@ -90,10 +92,15 @@ def prod(
         out = _prod(a, axis=axis)
 
     else:
-        for idx in axis:
+        axes = [idx + a.ndim if idx < 0 else idx for idx in axis]
+        for idx in axes:
             a = _prod(a, axis=idx)
             a = a[(slice(None),) * idx + (numpy.newaxis,)]
         out = a
+        if not keepdims:
+            out = numpoly.reshape(
+                out, [dim for idx, dim in enumerate(out.shape) if idx not in axes]
+            )
 
     return out
 
